@@ -92,8 +92,52 @@ fn write_translations(req: &Value) -> Value {
     res
 }
 
+/// op `icu`: `{"op":"icu","work":..,"cargo_toml":..,"files":[[rel,text]..],"expected_options":["Plurals",..]}` →
+/// the data keys `get_icu_keys()` returns, the data keys of the expected options (through the public
+/// `Options::into_data_keys`), `get_locales()`, `get_namespaces()` and whether `get_locales_langids()` panics.
+fn icu(req: &Value) -> Value {
+    use leptos_i18n_build::Options;
+    let work = PathBuf::from(req["work"].as_str().expect("work"));
+    assert!(work.starts_with("/verif/.work"), "work dir must be under /verif/.work");
+    let _ = std::fs::remove_dir_all(&work);
+    let proj = work.join("proj");
+    std::fs::create_dir_all(&proj).unwrap();
+    std::fs::write(proj.join("Cargo.toml"), req["cargo_toml"].as_str().expect("cargo_toml")).unwrap();
+    for f in req["files"].as_array().expect("files") {
+        let p = proj.join(f[0].as_str().unwrap());
+        std::fs::create_dir_all(p.parent().unwrap()).unwrap();
+        std::fs::write(&p, f[1].as_str().unwrap()).unwrap();
+    }
+    let res = (|| {
+        let infos = match TranslationsInfos::parse_at_dir(proj.clone()) {
+            Ok(i) => i,
+            Err(e) => return json!({"parse_err": e.to_string()}),
+        };
+        let mut keys: Vec<String> = infos.get_icu_keys().map(|k| k.path().get().to_string()).collect();
+        keys.sort();
+        keys.dedup();
+        let all = [("Plurals", Options::Plurals), ("FormatDateTime", Options::FormatDateTime), ("FormatList", Options::FormatList),
+                   ("FormatNums", Options::FormatNums), ("FormatCurrency", Options::FormatCurrency)];
+        let per_option: Vec<Value> = all.iter().map(|(n, o)| {
+            let mut ks: Vec<String> = o.into_data_keys().iter().map(|k| k.path().get().to_string()).collect();
+            ks.sort();
+            json!([n, ks])
+        }).collect();
+        let locales: Vec<String> = infos.get_locales().map(|l| l.to_string()).collect();
+        let namespaces: Option<Vec<String>> = infos.get_namespaces().map(|it| it.map(|n| n.to_string()).collect());
+        let langids = std::panic::catch_unwind(std::panic::AssertUnwindSafe(|| {
+            infos.get_locales_langids().map(|l| l.to_string()).collect::<Vec<_>>()
+        }));
+        json!({"keys": keys, "per_option": per_option, "locales": locales, "namespaces": namespaces,
+               "langids": match langids { Ok(v) => json!(v), Err(_) => json!({"panic": true}) }})
+    })();
+    let _ = std::fs::remove_dir_all(&work);
+    res
+}
+
 fn handle(req: &Value) -> Value {
     match req["op"].as_str().unwrap_or("") {
+        "icu" => icu(req),
         "write_translations" => write_translations(req),
         op => json!({"bad_op": format!("unknown op {op}")}),
     }
